@@ -5,7 +5,7 @@ V = os.path.dirname(os.path.dirname(os.path.abspath(__file__)))
 rows = [json.loads(l) for l in open(os.path.join(V, ".work", "mutants.jsonl"))]
 seen = {}
 for r in rows:
-    seen[(r["file"], r["line"], r["mutation"])] = r  # last run wins
+    seen[(r["file"], r["orig"], r["mutation"])] = r  # last run wins (re-tests replace the first result)
 per = collections.defaultdict(lambda: [0, 0])
 for r in seen.values():
     per[r["file"]][0 if r["caught_by"] else 1] += 1
